@@ -212,3 +212,31 @@ def run_judge(event_files, module="Judge", cfgname="Judge.cfg", parallel=16, tim
             fails.update(f)
             total += d
     return fails, total, time.time() - t0
+
+
+def generate_behaviours(module, cfg, outpath, timeout=1800, heap="8g"):
+    """(G) run TLC with a CONSTRAINT that prints <<"TRACE", json>> for every reachable state
+    (one worker: lines are not interleaved); write the JSON lines to outpath.
+    Returns (n_lines, distinct_states, generated)."""
+    md = _metadir()
+    args = ["-workers", "1", "-metadir", md, "-noGenerateSpecTE", "-config", os.path.join(SPEC, "mc", cfg),
+            os.path.join(SPEC, module + ".tla")]
+    try:
+        rc, out, wall = _java(args, timeout=timeout, heap=heap, gc_threads=4)
+    finally:
+        shutil.rmtree(md, ignore_errors=True)
+    if rc != 0 or "Finished in" not in out:
+        raise MachineryError("behaviour generation %s/%s failed:\n%s" % (module, cfg, out[-3000:]))
+    n = 0
+    seen = set()
+    with open(outpath, "w") as f:
+        for ln in out.split("\n"):
+            if ln.startswith('<<"TRACE"'):
+                js = _parse_tla_value(ln)[1]
+                if js in seen:
+                    continue
+                seen.add(js)
+                f.write(js + "\n")
+                n += 1
+    gen, dist = parse_stats(out)
+    return n, dist, gen
